@@ -67,6 +67,13 @@ func NewWriterLevelDict(w io.Writer, level int, dict []byte) (*Writer, error) {
 	if level < HuffmanOnly || level > BestCompression {
 		return nil, fmt.Errorf("zlib: invalid compression level: %d", level)
 	}
+	if dict != nil {
+		// Keep a private copy (non-nil even when empty): the header's DICTID is
+		// recomputed after every Reset and must keep matching the copy of the
+		// dictionary the compressor took, whatever the caller does with its
+		// slice once the Writer has been closed.
+		dict = append(make([]byte, 0, len(dict)), dict...)
+	}
 	return &Writer{
 		w:     w,
 		level: level,
